@@ -43,6 +43,8 @@ class Alphabet:
                         for (t, ci, q) in self.syms] for pos in range(self.max_depth)]
         # the same events stamped with DEcreasing timestamps (stream order is the order of arrival, not of the stamps)
         self.events_desc = [[e._replace(timestamp=1000 - e.timestamp) for e in row] for row in self.events]
+        # the same events all stamped alike: two records of one symbol are then equal field by field (distinct objects)
+        self.events_same = [[e._replace(timestamp=7) for e in row] for row in self.events]
 
     def describe(self, hist):
         return [f'tid{t}:{self.codes[ci][0]}:{QN[q]}' for (t, ci, q) in (self.syms[s] for s in hist)]
@@ -82,7 +84,7 @@ def _canon_abstract(parser):
     return tuple(out)
 
 
-def check_history(alpha, hist, from_step=0, collect_state=None, prefilled=False, via_generator=False, desc_ts=False):
+def check_history(alpha, hist, from_step=0, collect_state=None, prefilled=False, via_generator=False, desc_ts=False, same_ts=False):
     """Run one history on a fresh parser with the reference model in lockstep.
     Returns (violation or None, n_emitted, matched_end_seen). Steps < from_step are replayed and modelled
     but not judged (they were judged as part of an earlier history with the same prefix)."""
@@ -90,8 +92,9 @@ def check_history(alpha, hist, from_step=0, collect_state=None, prefilled=False,
     ref = {'ord': {}, 'trace': {}}
     emitted = 0
     matched = 0
-    events = alpha.events_desc if desc_ts else alpha.events
+    events = alpha.events_desc if desc_ts else alpha.events_same if same_ts else alpha.events
     unstamp = (lambda ts: 1000 - ts) if desc_ts else (lambda ts: ts)
+    ident = {id(events[i_][s_]): i_ for i_, s_ in enumerate(hist)} if same_ts else None
     last_start = {}
     gen_out = None
     if via_generator:
@@ -117,7 +120,7 @@ def check_history(alpha, hist, from_step=0, collect_state=None, prefilled=False,
         e = events[i][s]
         judge = i >= from_step
         stray = False
-        before = canon(p) if (judge and q == 2 and not via_generator and not desc_ts) else None
+        before = canon(p) if (judge and q == 2 and not via_generator and not desc_ts and not same_ts) else None
         if via_generator:
             got = gen_out.get(i)
         else:
@@ -164,7 +167,9 @@ def check_history(alpha, hist, from_step=0, collect_state=None, prefilled=False,
             return ('unexpected-trace', i, f'emitted {type(got).__name__}'), emitted, matched
         if got is not None:
             kt = got.ktraces
-            pos = [unstamp(x.timestamp) for x in kt]
+            pos = [ident.get(id(x), -1) for x in kt] if same_ts else [unstamp(x.timestamp) for x in kt]
+            if -1 in pos:
+                return ('window-holds-foreign-object', i, pos), emitted, matched
             if any(kt[j] is not events[pos[j]][hist[pos[j]]] for j in range(len(kt)) if 0 <= pos[j] < len(hist)):
                 return ('window-holds-foreign-object', i, pos), emitted, matched
             if pos != sorted(set(pos)):
@@ -246,7 +251,7 @@ class C04(Check):
             'reference model of the statement in lockstep (every maximal history is run; each shorter history is '
             'judged as a prefix exactly once). Cases are distinct by construction (each element of the product is '
             'enumerated once); non-trivial = the history contains at least one END that matches an open START of '
-            'the same code on the same thread. Every history of depth 3 over a 16-symbol (quick) / 40-symbol (thorough) alphabet also goes through EVERY entry point that reaches the pairing layer (feed, feed_generator, PyKdebugParser.traces on a v2 file, on a v3 file with one chunk and with one chunk per record) and all must agree. Alphabets marked +ts carry decreasing timestamps (stream order is arrival order, not stamp order); alphabets marked +gen go through feed_generator (the lazy entry point PyKdebugParser.traces uses) instead of feed(); alphabets marked +map are fed to a parser whose thread map was already populated when it was built. states = distinct canonical window-table states (positions '
+            'the same code on the same thread. Every history of depth 3 over a 16-symbol (quick) / 40-symbol (thorough) alphabet also goes through EVERY entry point that reaches the pairing layer (feed, feed_generator, PyKdebugParser.traces on a v2 file, on a v3 file with one chunk and with one chunk per record) and all must agree. Alphabets marked +ts carry decreasing timestamps (stream order is arrival order, not stamp order); alphabets marked +same stamp every record alike, so that two records of one kind are equal field by field (positions are then recovered by object identity); alphabets marked +gen go through feed_generator (the lazy entry point PyKdebugParser.traces uses) instead of feed(); alphabets marked +map are fed to a parser whose thread map was already populated when it was built. states = distinct canonical window-table states (positions '
             'abstracted) reached at the end of a history; transitions = real feed() calls.')
     assumptions = (
         'codes used: BSC_getpid/BSC_getuid (ordinary), TRACE_DATA_EXEC/TRACE_STRING_PROC_EXIT (trace domain), '
@@ -259,8 +264,8 @@ class C04(Check):
 
     def plan(self):
         if self.tier == 'quick':
-            return [('A40', 4), ('FRAG', 3), ('T3', 3), ('C7', 4), ('A16+map', 4), ('T3+map', 3), ('SIDE', 3), ('A16+gen', 4), ('C7+gen', 3), ('T3+gen', 3), ('A16+ts', 4), ('FRAG+ts', 3)]
-        return [('A40', 5), ('A16', 6), ('FRAG', 4), ('A48', 4), ('T3', 4), ('C7', 5), ('A40+map', 4), ('T3+map', 4), ('SIDE', 4), ('A40+gen', 4), ('C7+gen', 4), ('T3+gen', 4), ('A40+ts', 4), ('FRAG+ts', 4)]
+            return [('A40', 4), ('FRAG', 3), ('T3', 3), ('C7', 4), ('A16+map', 4), ('T3+map', 3), ('SIDE', 3), ('A16+gen', 4), ('C7+gen', 3), ('T3+gen', 3), ('A16+ts', 4), ('FRAG+ts', 3), ('A16+same', 4), ('A16+same+gen', 4), ('FRAG+same', 3)]
+        return [('A40', 5), ('A16', 6), ('FRAG', 4), ('A48', 4), ('T3', 4), ('C7', 5), ('A40+map', 4), ('T3+map', 4), ('SIDE', 4), ('A40+gen', 4), ('C7+gen', 4), ('T3+gen', 4), ('A40+ts', 4), ('FRAG+ts', 4), ('A40+same', 4), ('A16+same+gen', 5), ('FRAG+same', 4)]
 
     def bounds(self):
         return {'spaces': [{'alphabet': a, 'symbols': len(alphabet(a).syms), 'depth': d,
@@ -377,7 +382,7 @@ class C04(Check):
                 while hist[from_step] == prev[from_step]:
                     from_step += 1
             prev = hist
-            bad, emitted, matched = check_history(alpha, hist, from_step, states, prefilled='+map' in a, via_generator='+gen' in a, desc_ts='+ts' in a)
+            bad, emitted, matched = check_history(alpha, hist, from_step, states, prefilled='+map' in a, via_generator='+gen' in a, desc_ts='+ts' in a, same_ts='+same' in a)
             acc.case(nontrivial=matched > 0, transitions=d, outcome=None)
             if emitted:
                 acc.count('histories_emitting_traces')
@@ -403,7 +408,7 @@ class C04(Check):
             self.run_long(('long', case['long'][0], case['long'][1]), acc)
             return [(sig, v['cases'][0][1]) for sig, v in acc.violations.items()]
         alpha = alphabet(case['alphabet'])
-        bad, _, _ = check_history(alpha, tuple(case['history']), 0, None, prefilled='+map' in case['alphabet'], via_generator='+gen' in case['alphabet'], desc_ts='+ts' in case['alphabet'])
+        bad, _, _ = check_history(alpha, tuple(case['history']), 0, None, prefilled='+map' in case['alphabet'], via_generator='+gen' in case['alphabet'], desc_ts='+ts' in case['alphabet'], same_ts='+same' in case['alphabet'])
         return [(bad[0], {'step': bad[1], 'detail': bad[2]})] if bad else []
 
 
